@@ -202,12 +202,34 @@ pub fn gen_spin(rng: &mut Rng) -> Vec<String> {
     toks
 }
 
+/// recursion `depth` deep through a scoped (or plain) function: `down n` calls `down n+1` until
+/// the depth is reached and hands the innermost value back through every frame
+pub fn deep_recursion_case(depth: usize, scoped: bool) -> Case {
+    let e = |s: &str| s.to_string();
+    let mut t = vec![e("B3"), e("D"), enc_str("fn"), if scoped { e("1") } else { e("0") }, enc_str("down"), e("B2")];
+    t.push(e("I")); t.push(enc_str("if")); t.push(enc_list(&[e("lt"), e("${1}"), depth.to_string()]));
+    t.push(e("B3"));
+    t.extend(line(Some("m"), "inc", &[e("${1}")]));
+    t.extend(line(Some("r"), "down", &[e("${m}")]));
+    t.push(e("R")); t.push(enc_str("return")); t.push(enc_str("${r}"));
+    t.push(e("E0")); t.push(e("X-")); t.push(enc_str("end"));
+    t.push(e("R")); t.push(enc_str("return")); t.push(enc_str("bottom-${1}"));
+    t.push(enc_str("end"));
+    t.extend(line(Some("x"), "down", &[e("0")]));
+    t.extend(line(None, "emit", &[e("result"), e("${x}")]));
+    Case { req: format!("c04 {} - 400000", t.join(";")), in_domain: true, nontrivial: true, tags: vec!["deep-recursion", "fn", "return"] }
+}
+
 impl Prop for C05Prop {
     fn id(&self) -> &'static str {
         "C05"
     }
     fn rule(&self) -> &'static str {
         "programs with 1-3 function definitions (scoped or not, 0-2 parameters, any spelling of fn/end_fn/return), bodies with nested if/while/for-in and returns at any depth (bare or with a value), calls as statements, as output-assigning statements and in condition position (leaf functions), calls from function bodies to earlier functions, repeated calls from loops; main body as in C04. Oracle: the Lean tree interpreter (functions = bodies with parameters, scoped = isolated variables). In-domain stream: no 'return' lexically inside a for-in body (that shape is the recorded finding C05/return-inside-for and is generated in a separate stream). One program in ten is a SEARCH function: for-in loops nested 1-3 deep over handles passed as arguments, `return` from the innermost loop when the searched combination is met, 2-5 calls with targets found early / late / never, optionally a recursive call from the innermost loop, scoped or not (inside the recorded class C05/return-inside-for: goto-machine model vs code; any difference from the model is a violation). One program in twelve starts with no variables at all; initial values with blanks + backslashes reach calls in condition position. Observed: emit trace, final variables. Non-trivial = at least one call executed inside a loop or branch and at least one return; distinct = distinct request."
+    }
+    fn fixed_cases(&self, _tier: Tier) -> Vec<Case> {
+        // thresholds of the scope stack / the function call stack
+        vec![deep_recursion_case(40, true), deep_recursion_case(150, true), deep_recursion_case(260, true), deep_recursion_case(260, false), deep_recursion_case(1100, true)]
     }
     fn budget(&self, tier: Tier) -> usize {
         match tier {
